@@ -245,7 +245,7 @@ func (t *Dense) MaskFromDense(tts ...*Dense) {
 
 	//Only make mask if none already. This way one of the tts can be t itself
 
-	if len(t.mask) < t.DataSize() {
+	if len(t.mask) < t.len() {
 		t.makeMask()
 	}
 
